@@ -1,7 +1,12 @@
 mod common;
 mod c01;
 mod c02;
+mod c03;
 mod c06;
+mod c12;
+mod c15;
+mod c16;
+mod desc;
 mod c14;
 mod c18;
 mod c20;
@@ -20,6 +25,10 @@ pub fn exec_line(line: &str) -> String {
             .or_else(|| c01::exec(&t))
             .or_else(|| c02::exec(&t))
             .or_else(|| c06::exec(&t))
+            .or_else(|| c12::exec(&t))
+            .or_else(|| c03::exec(&t))
+            .or_else(|| c15::exec(&t))
+            .or_else(|| c16::exec(&t))
             .or_else(|| c18::exec(&t))
             .unwrap_or_else(|| "bad-op".to_string())
     }) { Ok(s) => s, Err(m) => format!("PANIC {}", m.replace('\n', " ")) }
@@ -36,6 +45,11 @@ fn main() {
             match prop.as_str() {
                 "C01" => c01::run(&mut o, tier, seed),
                 "C02" => c02::run(&mut o, tier, seed),
+                "C03" => c03::run_c03(&mut o, tier, seed),
+                "C05" => c03::run_c05(&mut o, tier, seed),
+                "C15" => c15::run(&mut o, tier, seed),
+                "C16" => c16::run(&mut o, tier, seed),
+                "C12" => c12::run(&mut o, tier, seed),
                 "C06" => c06::run(&mut o, tier, seed),
                 "C14" => c14::run(&mut o, tier, seed),
                 "C18" => c18::run(&mut o, tier, seed),
